@@ -102,6 +102,11 @@ func parseFmt(x Sx) []FP {
 			out = append(out, FP{Kind: k, Verb: p.List[1].Atom, I: v})
 		case "err":
 			out = append(out, FP{Kind: k, Verb: p.List[1].Atom, R: ParseR(p.List[2])})
+		case "xstr", "xsafestr":
+			out = append(out, FP{Kind: k, S: p.List[2].Atom})
+		case "xint":
+			v, _ := strconv.ParseInt(p.List[2].Atom, 10, 64)
+			out = append(out, FP{Kind: k, I: v})
 		default:
 			panic(fmt.Sprintf("parseFmt: bad piece %s", p.String()))
 		}
